@@ -33,7 +33,7 @@ EXPLANATION = ("C17: (gram) the per-voxel matrices built by EspiritCalib.__init_
                "Hermitian Gram matrices one power iteration followed by _output gives, at every voxel, a coil vector that is exactly zero or of unit l2 norm, "
                "coil 0 real and non-negative, zero iff the eigenvalue estimate is <= crop, estimate >= 0.")
 REDUCE = True
-CONFIG_BUDGET_S = {"quick": 900, "thorough": 3600}
+CONFIG_BUDGET_S = {"quick": 900, "thorough": 1800}
 
 
 def _svd_stub(Svals, VH):
